@@ -20,6 +20,13 @@ RULE = ("gamma surfaces: n1 x n2 grids (4-15) of Fourier-sum or random energies 
         "crystal rotation, Burgers vector of any character in the slip plane, gamma surface spanning the slip plane; "
         "uniform grids of 7-401 points, spacing b/4..b/20, arctangent profile plus sine/ramp perturbations in the edge and "
         "screw components; tau, alpha (none/scalar/0-3 terms), symmetric beta, cutoff, all four finite-difference/stress flags. "
+        "Object history (about half of the cases of every stateful clause): a GammaSurface gets other data loaded into the "
+        "existing object by set()/model() (and the first back), is queried again in the other interpolation mode / mode order; "
+        "an SDVPN is evaluated 1-3 more times on the same object with x/disregistry given as arguments, keywords, through the "
+        "setters or mixed (same length with new spacing, new length, translated grid, same grid, back to the first), with "
+        "tau/alpha/beta/cutoff/flags changed through their setters in between; solve is preceded and followed by evaluations "
+        "of another grid and takes its settings from the constructor, the setters or its keywords; every evaluation is judged "
+        "like the first.  "
         "Non-trivial: surfaces - oblique shift vectors or an array-valued query; PN - disregistry with non-zero edge and "
         "screw parts and at least one of tau/alpha/beta active; solve - the same with >= 7 points; halfwidth and arctan - "
         "every case (generic parameters)")
@@ -358,7 +365,7 @@ def oracle_periodic(case):
         if len(modes) > 2:
             labels.add('history_mode_back')
     for (name, fn, T, rng), smooth in plan:
-        if True:
+        if True:        # (indentation kept)
             e0 = ev(fn, q, smooth)
             e1 = ev(fn, q + k, smooth)
             require(e0.shape == (len(q),) and e1.shape == (len(q),), lambda: '%s returned shape %r for %d points' % (name, e0.shape, len(q)))
@@ -405,11 +412,57 @@ def _shape_pair(r, n, what):
     return a, b
 
 
-def oracle_coords(case):
-    """conversions that do not need pos_to_a12 on an (N,3) array"""
+def _with_history(case, checks):
+    """run checks(g, s, info, case, smooth, labels) on a fresh object, then - object history - again on the SAME object
+    for every drawn step: other interpolation mode, the held data loaded again or the other surface loaded into the
+    object (set / model); every round is judged exactly like the first"""
     s = case['surf']
     g, info = build_surface(s)
     labels = surface_labels(s, info)
+    sm = bool(case['smooth'])
+    checks(g, s, info, case, sm, labels)
+    h = case.get('hist')
+    if h:
+        labels.add('history')
+        held, other = s, h['surf2']
+        swaps = 0
+        for num, step in enumerate(h['seq']):
+            r = step['reload']
+            what = 'same data'
+            if r is not None:
+                if r.startswith('swap'):
+                    held, other = other, held
+                    swaps += 1
+                    what = 'the other surface loaded into the object'
+                    labels.add('history_back' if swaps % 2 == 0 else 'history_swap')
+                else:
+                    what = 'the held data loaded again'
+                route = 'set' if r.endswith('set') else ('model_dm', 'model_str')[num % 2]
+                info = reload_surface(g, held, route)
+                labels.add('history_reload_' + ('set' if route == 'set' else 'model'))
+            elif bool(step['smooth']) != sm:
+                labels.add('history_other_mode')
+            else:
+                labels.add('history_requery')
+            sm = bool(step['smooth'])
+            tag = ' [history round %d on the same object: %s, smooth=%r]' % (num + 2, what, sm)
+            try:
+                check_setup(g, held, info)
+                checks(g, held, info, case, sm, set())
+            except Violation as e:
+                raise Violation(e.detail + tag, key=e.key)
+    return labels
+
+
+def oracle_coords(case):
+    """conversions that do not need pos_to_a12 on an (N,3) array"""
+    labels = _with_history(case, _coords_checks)
+    if 'oblique' in labels or (not case['scalar']):
+        labels.add('nt')
+    return labels
+
+
+def _coords_checks(g, s, info, case, sm, labels):
     A1, A2 = info['A1'], info['A2']
     cond = gsf_ref.basis_cond(A1, A2)
     q = np.array(case['q'], dtype=float)
@@ -459,7 +512,6 @@ def oracle_coords(case):
         x3, y3 = g.pos_to_xy(np.asarray(p2), **kw_x)
         _cmp(x3, X, 8 * tol_pos, 'pos_to_xy(xy_to_pos(x,y)) x'); _cmp(y3, Y, 8 * tol_pos, 'pos_to_xy(xy_to_pos(x,y)) y')
     # energy at a single Cartesian position = energy at its fractional coordinates (1-D pos is not blocked)
-    sm = bool(case['smooth'])
     rng = info['Erange']
     for i in range(min(n, 2)):
         if not sm and (gsf_ref.nearest_index(u[i], info['n1'], 1e-7)[1] or gsf_ref.nearest_index(v[i], info['n2'], 1e-7)[1]):
@@ -481,20 +533,21 @@ def oracle_coords(case):
             labels.add('xvect_refused')
         else:
             raise Violation('pos_to_xy with an xvect out of the fault plane did not raise ValueError')
-    if 'oblique' in labels or (not scalar):
-        labels.add('nt')
-    return labels
 
 
 def oracle_coords_multi(case):
     """everything that sends an (N,3) array through pos_to_a12: pos_to_a12 itself, xy_to_a12, E_gsf/delta(pos= | x=,y= |
     alternative a1vect/a2vect)"""
-    s = case['surf']
-    g, info = build_surface(s)
+    labels = _with_history(case, _multi_checks)
+    if 'oblique' in labels or len(case['q']) > 1 or not case['scalar']:
+        labels.add('nt')
+    return labels
+
+
+def _multi_checks(g, s, info, case, sm, labels):
     if _multipoint_broken(g, info):
         raise Violation('pos_to_a12 on an (N,3) array of in-plane positions raises / returns wrong values '
                         '(np.linalg.solve takes the (N,3) right-hand side for a matrix)', key=K_MULTI)
-    labels = surface_labels(s, info)
     A1, A2 = info['A1'], info['A2']
     cond = gsf_ref.basis_cond(A1, A2)
     q = np.array(case['q'], dtype=float)
@@ -513,7 +566,6 @@ def oracle_coords_multi(case):
     X, Y = gsf_ref.pos_to_xy(P, A1, A2, xv)
     labels.add('npts%d' % n)
     labels.add('scalar' if scalar else ('list' if al else 'array'))
-    sm = bool(case['smooth'])
     labels.add('smooth' if sm else 'nearest')
     # --- conversions back to fractional coordinates
     gu, gv = _shape_pair(g.pos_to_a12(P.copy()), n, 'pos_to_a12((%d,3) array)' % n)
@@ -590,9 +642,6 @@ def oracle_coords_multi(case):
                 raise Violation('Cartesian positions given as a list (array-like per docstring): %s' % e, key=K_POSLIST)
             raise
         labels.add('pos_list')
-    if 'oblique' in labels or n > 1 or not scalar:
-        labels.add('nt')
-    return labels
 
 
 # ----------------------------------------------------------------------------- model
@@ -621,17 +670,35 @@ def oracle_model(case):
     if fmt == 'xml' and 'np.float64(' in text:
         raise Violation('GammaSurface.model().xml() contains %r: vectors are stored as lists of numpy scalars'
                         % text[text.index('np.float64('):][:24], key=K_XML)
+    into = case.get('into')
+    if into is not None:
+        # object history: the model is loaded into an object that holds other data and has answered queries on them
+        g2, info_old = build_surface(into)
+        g2.E_gsf(a1=[0.25, 0.5], a2=[0.5, 0.125], smooth=True)
+        g2.E_gsf(a1=[0.25, 0.5], a2=[0.5, 0.125], smooth=False)
+        if info_old['D'] is not None:
+            g2.delta(a1=0.25, a2=0.5)
+        labels.add('history_load_into_existing')
+        if (into['D'] is None) != (s['D'] is None):
+            labels.add('history_delta_toggled')
     if case['via'] == 'str':
-        g2 = am.defect.GammaSurface(model=text)
+        if into is None:
+            g2 = am.defect.GammaSurface(model=text)
+        else:
+            g2.model(model=text)
     elif case['via'] == 'dm':
         from DataModelDict import DataModelDict as DM
-        g2 = am.defect.GammaSurface(model=DM(text))
+        if into is None:
+            g2 = am.defect.GammaSurface(model=DM(text))
+        else:
+            g2.model(model=DM(text))
     else:
         fd, path = tempfile.mkstemp(suffix='.' + fmt)
         try:
             with os.fdopen(fd, 'w', encoding='utf-8') as fh:
                 fh.write(text)
-            g2 = am.defect.GammaSurface()
+            if into is None:
+                g2 = am.defect.GammaSurface()
             g2.model(model=path)
         finally:
             os.remove(path)
@@ -664,6 +731,13 @@ def oracle_model(case):
     _cmp(p2, p1, 1e-8 * max(1.0, float(np.abs(p1).max())), 'a12_to_pos of the reloaded surface')
     if s['D'] is None:
         require('delta' not in d2.columns, 'reloaded surface grew a delta column')
+        try:
+            g2.delta(a1=0.25, a2=0.5)
+        except AttributeError as e:
+            require('delta data not set' in str(e), lambda: 'delta() without data raised AttributeError(%s)' % e)
+        else:
+            raise Violation('delta() answers on a reloaded surface whose model has no plane-separation data'
+                            + ('' if into is None else ' (the object held such data before the load)'))
     labels.add('nt')
     return labels
 
@@ -842,7 +916,197 @@ def _close(got, exp, scale, what, rel=1e-10, extra=0.0):
             % (what, got, exp, abs(got - exp), tol))
 
 
+# ----------------------------------------------------------------------------- object history of an SDVPN
+
+_SET_KEYS = ('tau', 'alpha', 'beta', 'cutoff', 'fullstress', 'cdiffelastic', 'cdiffsurface', 'cdiffstress')
+
+
+def apply_settings(pn, cur, chg):
+    """change settings of an existing object through its public attribute setters; returns my updated description.
+    cutoff None = the documented default 1000 (angstrom), alpha None = the documented default 0.0"""
+    cur = dict(cur)
+    for k in _SET_KEYS:
+        if k not in chg:
+            continue
+        v = chg[k]
+        if k == 'tau':
+            pn.tau = np.array(v, dtype=float)
+        elif k == 'beta':
+            pn.beta = np.array(v, dtype=float)
+        elif k == 'alpha':
+            pn.alpha = 0.0 if v is None else v
+        elif k == 'cutoff':
+            v = 1000.0 if v is None else v
+            pn.cutofflongrange = v
+        else:
+            setattr(pn, k, bool(v))
+        cur[k] = v
+    return cur
+
+
+def step_profile(step, base, prev, nmax=200):
+    """profile description of a history step: its grid is defined relative to the evaluation before it"""
+    kind = step['grid']
+    if kind == 'back':
+        return dict(base)
+    p = dict(step['prof'])
+    if kind in ('same', 'shift', 'spacing'):
+        p['N'] = prev['N']
+    if kind == 'same':
+        p['kstep'], p['x0'] = prev['kstep'], prev['x0']
+    elif kind == 'shift':
+        p['kstep'] = prev['kstep']
+        if p['x0'] == prev['x0']:
+            p['x0'] = -2.5 if prev['x0'] == 1.625 else 1.625
+    elif kind == 'spacing':
+        if p['kstep'] == prev['kstep']:
+            p['kstep'] = prev['kstep'] + 1 if prev['kstep'] < 20 else prev['kstep'] - 1
+    else:
+        p['N'] = min(p['N'], nmax)
+        if p['N'] == prev['N']:
+            p['N'] = p['N'] + 1 if p['N'] < nmax else p['N'] - 1
+    return p
+
+
+def hand_over(pn, x, d, via, listx=False):
+    """give (x, disregistry) to the object by one of the public routes; returns (args, kwargs) for the energy methods"""
+    if via == 'args':
+        return (x.copy(), d.copy()), {}
+    if via == 'kw':
+        return (), {'x': x.copy(), 'disregistry': d.copy()}
+    if via == 'setter':
+        pn.x = x.tolist() if listx else x.copy()
+        pn.disregistry = d.copy()
+        _cmp(pn.x, x, 0.0, 'x after assignment'); _cmp(pn.disregistry, d, 0.0, 'disregistry after assignment')
+        return (), {}
+    if via == 'x_arg':
+        pn.disregistry = d.copy()
+        return (), {'x': x.copy()}
+    if via == 'd_arg':
+        pn.x = x.copy()
+        return (), {'disregistry': d.copy()}
+    raise ValueError(via)
+
+
+def history_labels(labels, step, via, x, xprev, xbase, moved_away):
+    """classify a history evaluation against the one before it"""
+    as_arg = via in ('args', 'kw', 'x_arg')
+    labels.add('history')
+    if len(x) != len(xprev):
+        labels.add('history_new_len')
+    elif abs((x[1] - x[0]) - (xprev[1] - xprev[0])) > 1e-9 * (x[1] - x[0]):
+        labels.add('history_same_len_new_spacing' if as_arg else 'history_same_len_new_spacing_setter')
+    elif np.array_equal(x, xprev):
+        labels.add('history_same_grid')
+    else:
+        labels.add('history_shifted_grid')
+    if step['grid'] == 'back' and moved_away:
+        labels.add('history_back')
+    if via in ('setter', 'x_arg', 'd_arg'):
+        labels.add('history_setter_between')
+    if via in ('x_arg', 'd_arg'):
+        labels.add('history_' + via + '_only')
+    if step.get('chg'):
+        labels.add('history_settings_changed')
+
+
+def step_tag(num, step, via, x, xprev):
+    return (' [history: evaluation %d on the same object; N %d -> %d, spacing %.6g -> %.6g, x/disregistry given by %r%s]'
+            % (num, len(xprev), len(x), xprev[1] - xprev[0], x[1] - x[0], via,
+               ', settings %s changed through their setters' % sorted(step['chg']) if step.get('chg') else ''))
+
+
+def run_history(case, S, pn, st_, x, d, labels, judge, nmax=200):
+    """the drawn further evaluations on the SAME object, each judged by judge(pn, st, x, d, args, kwargs, labels, tag)
+    exactly like the first one"""
+    base = case['prof']
+    prev, xprev = dict(base), x
+    cur = dict(st_)
+    if cur['cutoff'] is None:
+        cur['cutoff'] = 1000.0
+    moved = False
+    for num, step in enumerate(case.get('hist') or []):
+        p = step_profile(step, base, prev, nmax)
+        xs, ds = build_profile(p, S['b'])
+        via = step['via']
+        history_labels(labels, step, via, xs, xprev, x, moved)
+        tag = step_tag(num + 2, step, via, xs, xprev)
+        if not np.array_equal(xs, x):
+            moved = True
+        try:
+            if step.get('chg'):
+                cur = apply_settings(pn, cur, step['chg'])
+            a, kw = hand_over(pn, xs, ds, via)
+            judge(pn, cur, xs, ds, a, kw, set(), tag)
+        except Violation as e:
+            raise Violation(e.detail + tag, key=e.key)
+        prev, xprev = p, xs
+    if len(case.get('hist') or []) >= 2:
+        labels.add('history_steps>=2')
+    return cur
+
+
 # ----------------------------------------------------------------------------- pn_terms
+
+def judge_terms(pn, S, K, st_, x, d, a, kw, labels):
+    """every configuration-dependent term + the long-range term of one evaluation against the independent formulas;
+    a, kw: how (x, disregistry) are handed to the methods (arguments or nothing when they are stored)"""
+    N = len(x)
+    dx = x[1] - x[0]
+    # dislocation density, both stencils
+    for cd in (False, True):
+        nx_, rho = pn.disldensity(*a, cdiff=cd, **kw)
+        ex, er = pn_ref.density(x, d, cd)
+        _cmp(nx_, ex, 0.0, 'disldensity(cdiff=%r) x positions' % cd)
+        _cmp(rho, er, 1e-13 * (np.abs(d).max() + 1e-300) / dx * 4, 'disldensity(cdiff=%r)' % cd)
+    # elastic
+    e_el = pn.elastic_energy(*a, **kw)
+    exp, sc = pn_ref.elastic(x, d, K, st_['cdiffelastic'])
+    _close(e_el, exp, sc, 'elastic_energy(cdiffelastic=%r, N=%d)' % (st_['cdiffelastic'], N))
+    if N <= 16:
+        exp2 = pn_ref.elastic_scalar_loop(x, d, K.tolist(), st_['cdiffelastic'])
+        _close(e_el, exp2, sc, 'elastic_energy vs scalar double loop')
+        labels.add('scalar_loop')
+    # long range
+    L = 1000.0 if st_['cutoff'] is None else st_['cutoff']
+    exp, scl = pn_ref.longrange(K.tolist(), S['b'].tolist(), L)
+    _close(pn.longrange_energy(), exp, scl, 'longrange_energy(cutoff %g)' % L, extra=1e-7 * scl)   # burgers carries a 1e-8 clean-up
+    # surface
+    exp, scs = pn_ref.surface(x, d, st_['beta'], st_['cdiffsurface'])
+    _close(pn.surface_energy(*a, **kw), exp, scs, 'surface_energy(cdiffsurface=%r)' % st_['cdiffsurface'])
+    # nonlocal
+    al = alphas_of(st_)
+    require(tuple(float(t) for t in pn.alpha) == tuple(al), lambda: 'alpha stored as %r for %r' % (pn.alpha, st_['alpha']))
+    if N > 2 * len(al):
+        exp, scn = pn_ref.nonlocal_(x, d, al)
+        _close(pn.nonlocal_energy(*a, **kw), exp, scn, 'nonlocal_energy(alpha=%r)' % (al,))
+    # stress, both forms (last: one flag combination is a listed finding)
+    tau = st_['tau']
+    if st_['fullstress']:
+        exp, scf = pn_ref.stress_full(x, d, tau, st_['cdiffstress'])
+        try:
+            got = pn.stress_energy(*a, **kw)
+        except ValueError as e:
+            if st_['cdiffstress'] and 'broadcast' in str(e):
+                raise Violation('stress_energy(fullstress=True, cdiffstress=True) raised ValueError(%s): weights x[1:]^2-x[:-1]^2 '
+                                '(N-1) against a central-difference density (N-2)' % e, key=K_CDIFF)
+            raise
+        _close(got, exp, scf, 'stress_energy(fullstress=True, cdiffstress=%r)' % st_['cdiffstress'])
+    else:
+        exp, sca = pn_ref.stress_alt(x, d, tau)
+        got = pn.stress_energy(*a, **kw)
+        _close(got, exp, sca, 'stress_energy(fullstress=False)')
+        # documented relation to the full form: differs by a constant fixed by the end rows
+        pn.fullstress = True
+        pn.cdiffstress = False
+        full = float(pn.stress_energy(x, d))
+        pn.fullstress = False
+        pn.cdiffstress = st_['cdiffstress']
+        cst = pn_ref.stress_full_minus_alt_constant(x, d, tau)
+        scf = pn_ref.stress_full(x, d, tau, False)[1]
+        _close(full - float(got), cst, sca + scf, 'stress_energy(full) - stress_energy(alternate) vs its end-row constant', rel=1e-9)
+    return float(e_el), sc
+
 
 def oracle_pn_terms(case):
     S = build_pn_system(case['sys'])
@@ -853,29 +1117,12 @@ def oracle_pn_terms(case):
     check_frame(pn, S)
     K = np.asarray(pn.K_tensor, dtype=float)           # verified above
     if st_['stored']:
-        pn.x = x.tolist() if st_['via_solve_kw'] else x
-        pn.disregistry = d.copy()
-        args = ()
+        a, kw = hand_over(pn, x, d, 'setter', listx=st_['via_solve_kw'])
         labels.add('stored')
-        _cmp(pn.x, x, 0.0, 'x after assignment'); _cmp(pn.disregistry, d, 0.0, 'disregistry after assignment')
     else:
-        args = (x, d.copy())
+        a, kw = hand_over(pn, x, d, 'args')
     N = len(x)
-    dx = x[1] - x[0]
-    # dislocation density, both stencils
-    for cd in (False, True):
-        nx_, rho = pn.disldensity(*args, cdiff=cd)
-        ex, er = pn_ref.density(x, d, cd)
-        _cmp(nx_, ex, 0.0, 'disldensity(cdiff=%r) x positions' % cd)
-        _cmp(rho, er, 1e-13 * (np.abs(d).max() + 1e-300) / dx * 4, 'disldensity(cdiff=%r)' % cd)
-    # elastic
-    e_el = pn.elastic_energy(*args)
-    exp, sc = pn_ref.elastic(x, d, K, st_['cdiffelastic'])
-    _close(e_el, exp, sc, 'elastic_energy(cdiffelastic=%r, N=%d)' % (st_['cdiffelastic'], N))
-    if N <= 16:
-        exp2 = pn_ref.elastic_scalar_loop(x, d, K.tolist(), st_['cdiffelastic'])
-        _close(e_el, exp2, sc, 'elastic_energy vs scalar double loop')
-        labels.add('scalar_loop')
+    e_el, sc = judge_terms(pn, S, K, st_, x, d, a, kw, labels)
     # quadratic form: E(s*delta) = s^2 E(delta); parallelogram law with a second profile; rigid shift
     s_ = case['s']
     e_s = pn.elastic_energy(x, s_ * d)
@@ -890,44 +1137,9 @@ def oracle_pn_terms(case):
     e_sh = pn.elastic_energy(x, d + c)
     _close(e_sh, float(e_el), sc, 'elastic_energy(disregistry + constant %r) vs elastic_energy(disregistry)' % c.tolist(),
            rel=1e-9, extra=sc * 64 * EPS * (np.abs(c).max() + np.abs(d).max()) * N / (np.linalg.norm(S['b'])))
-    # long range
-    L = 1000.0 if st_['cutoff'] is None else st_['cutoff']
-    exp, sc = pn_ref.longrange(K.tolist(), S['b'].tolist(), L)
-    _close(pn.longrange_energy(), exp, sc, 'longrange_energy(cutoff %g)' % L, extra=1e-7 * sc)   # burgers carries a 1e-8 clean-up
-    # surface
-    exp, sc = pn_ref.surface(x, d, st_['beta'], st_['cdiffsurface'])
-    _close(pn.surface_energy(*args), exp, sc, 'surface_energy(cdiffsurface=%r)' % st_['cdiffsurface'])
-    # nonlocal
-    al = alphas_of(st_)
-    require(tuple(float(t) for t in pn.alpha) == tuple(al), lambda: 'alpha stored as %r for %r' % (pn.alpha, st_['alpha']))
-    if N > 2 * len(al):
-        exp, sc = pn_ref.nonlocal_(x, d, al)
-        _close(pn.nonlocal_energy(*args), exp, sc, 'nonlocal_energy(alpha=%r)' % (al,))
-    # stress, both forms (last: one flag combination is a listed finding)
-    tau = st_['tau']
-    if st_['fullstress']:
-        exp, sc = pn_ref.stress_full(x, d, tau, st_['cdiffstress'])
-        try:
-            got = pn.stress_energy(*args)
-        except ValueError as e:
-            if st_['cdiffstress'] and 'broadcast' in str(e):
-                raise Violation('stress_energy(fullstress=True, cdiffstress=True) raised ValueError(%s): weights x[1:]^2-x[:-1]^2 '
-                                '(N-1) against a central-difference density (N-2)' % e, key=K_CDIFF)
-            raise
-        _close(got, exp, sc, 'stress_energy(fullstress=True, cdiffstress=%r)' % st_['cdiffstress'])
-    else:
-        exp, sc = pn_ref.stress_alt(x, d, tau)
-        got = pn.stress_energy(*args)
-        _close(got, exp, sc, 'stress_energy(fullstress=False)')
-        # documented relation to the full form: differs by a constant fixed by the end rows
-        pn.fullstress = True
-        pn.cdiffstress = False
-        full = float(pn.stress_energy(x, d))
-        pn.fullstress = False
-        pn.cdiffstress = st_['cdiffstress']
-        cst = pn_ref.stress_full_minus_alt_constant(x, d, tau)
-        scf = pn_ref.stress_full(x, d, tau, False)[1]
-        _close(full - float(got), cst, sc + scf, 'stress_energy(full) - stress_energy(alternate) vs its end-row constant', rel=1e-9)
+    # object history: further evaluations on the same object, each against the independent formulas
+    run_history(case, S, pn, st_, x, d, labels,
+                lambda pn_, cur, xs, ds, a_, kw_, labs, tag: judge_terms(pn_, S, K, cur, xs, ds, a_, kw_, labs))
     return labels
 
 
@@ -949,24 +1161,25 @@ def blocked_multi(S):
                         '(N,3) array of disregistry positions', key=K_MULTI)
 
 
-def oracle_pn_total(case):
-    S = build_pn_system(case['sys'])
-    blocked_multi(S)
-    st_ = case['set']
-    x, d = build_profile(case['prof'], S['b'])
-    pn = make_sdvpn(S, st_)
-    labels = pn_labels(case, S, d)
-    if st_['stored']:
-        pn.x = x
-        pn.disregistry = d.copy()
-        args = ()
-        labels.add('stored')
-    else:
-        args = (x, d.copy())
+def my_total(S, st_, x, d, K, mr=None):
+    """independent total energy: (value, lowest, highest admissible value (seam band of the misfit term), absscale)"""
+    tau, al = st_['tau'], alphas_of(st_)
+    L = 1000.0 if st_['cutoff'] is None else st_['cutoff']
+    mr = misfit_reference(S, x, d) if mr is None else mr
+    parts = [(mr[0], mr[3]), pn_ref.elastic(x, d, K, st_['cdiffelastic']), pn_ref.longrange(K.tolist(), S['b'].tolist(), L),
+             pn_ref.stress_full(x, d, tau, st_['cdiffstress']) if st_['fullstress'] else pn_ref.stress_alt(x, d, tau),
+             pn_ref.nonlocal_(x, d, al) if len(x) > 2 * len(al) else (0.0, 0.0), pn_ref.surface(x, d, st_['beta'], st_['cdiffsurface'])]
+    tot = math.fsum(p[0] for p in parts)
+    return tot, tot - (mr[0] - mr[1]), tot + (mr[2] - mr[0]), math.fsum(p[1] for p in parts)
+
+
+def judge_total(pn, S, K, st_, x, d, a, kw, labels):
+    """misfit term against the independent conversion; total = sum of the object's six terms; total against the
+    independent evaluation of all six formulas"""
     N = len(x)
     exp, lo, hi, sc, uv = misfit_reference(S, x, d)
     condB = float(np.linalg.cond(S['B']))
-    got = float(pn.misfit_energy(*args))
+    got = float(pn.misfit_energy(*a, **kw))
     tolm = 1e-9 * condB * (sc + (x[1] - x[0]) * N * S['Emax'])
     require(math.isfinite(got) and lo - tolm <= got <= hi + tolm,
             lambda: 'misfit_energy (N=%d) = %.17g, dx * sum of gamma at the disregistry positions (independent conversion) = %.17g '
@@ -975,11 +1188,11 @@ def oracle_pn_total(case):
         labels.add('seam_band')
     if np.abs(uv).max() > 1.0:
         labels.add('wraps')
-    parts = [float(got), float(pn.elastic_energy(*args)), float(pn.longrange_energy()), None,
-             float(pn.nonlocal_energy(*args)), float(pn.surface_energy(*args))]
+    parts = [float(got), float(pn.elastic_energy(*a, **kw)), float(pn.longrange_energy()), None,
+             float(pn.nonlocal_energy(*a, **kw)), float(pn.surface_energy(*a, **kw))]
     try:
-        parts[3] = float(pn.stress_energy(*args))
-        tot = pn.total_energy(*args)
+        parts[3] = float(pn.stress_energy(*a, **kw))
+        tot = pn.total_energy(*a, **kw)
     except ValueError as e:
         if st_['fullstress'] and st_['cdiffstress'] and 'broadcast' in str(e):
             raise Violation('total_energy with fullstress=True, cdiffstress=True: stress_energy raised ValueError(%s)' % e, key=K_CDIFF)
@@ -987,28 +1200,42 @@ def oracle_pn_total(case):
     ssum = math.fsum(parts)
     sabs = math.fsum(abs(p) for p in parts)
     _close(tot, ssum, sabs, 'total_energy vs misfit+elastic+longrange+stress+nonlocal+surface = %r' % (parts,), rel=1e-12)
+    # and against my own evaluation of every formula
+    mine, mlo, mhi, msc = my_total(S, st_, x, d, K, mr=(exp, lo, hi, sc, uv))
+    L = 1000.0 if st_['cutoff'] is None else st_['cutoff']
+    tolt = tolm + 1e-10 * msc + 1e-7 * pn_ref.longrange(K.tolist(), S['b'].tolist(), L)[1]
+    require(math.isfinite(float(tot)) and mlo - tolt <= float(tot) <= mhi + tolt,
+            lambda: 'total_energy (N=%d) = %.17g, independent evaluation of the six documented formulas = %.17g '
+            '(accepted [%.17g, %.17g], tol %.3g); the object\'s own terms: %r' % (N, float(tot), mine, mlo, mhi, tolt, parts))
+    return float(tot), sabs
+
+
+def oracle_pn_total(case):
+    S = build_pn_system(case['sys'])
+    blocked_multi(S)
+    st_ = case['set']
+    x, d = build_profile(case['prof'], S['b'])
+    pn = make_sdvpn(S, st_)
+    labels = pn_labels(case, S, d)
+    K = np.asarray(pn.K_tensor, dtype=float)           # decided by clause pn_terms
+    if st_['stored']:
+        a, kw = hand_over(pn, x, d, 'setter')
+        labels.add('stored')
+    else:
+        a, kw = hand_over(pn, x, d, 'args')
+    tot, sabs = judge_total(pn, S, K, st_, x, d, a, kw, labels)
     # arguments given vs stored give the same number
     if not st_['stored']:
         pn.x = x
         pn.disregistry = d
         _close(pn.total_energy(), float(tot), sabs, 'total_energy() from stored x/disregistry vs total_energy(x, disregistry)', rel=1e-13)
     require(np.array_equal(np.asarray(pn.disregistry), d), 'energy evaluation changed the stored disregistry')
+    run_history(case, S, pn, st_, x, d, labels,
+                lambda pn_, cur, xs, ds, a_, kw_, labs, tag: judge_total(pn_, S, K, cur, xs, ds, a_, kw_, labs))
     return labels
 
 
 # ----------------------------------------------------------------------------- solve
-
-def my_total(S, st_, x, d, K):
-    """independent total energy: (value, lowest, highest admissible value (seam band of the misfit term), absscale)"""
-    tau, al = st_['tau'], alphas_of(st_)
-    L = 1000.0 if st_['cutoff'] is None else st_['cutoff']
-    mr = misfit_reference(S, x, d)
-    parts = [(mr[0], mr[3]), pn_ref.elastic(x, d, K, st_['cdiffelastic']), pn_ref.longrange(K.tolist(), S['b'].tolist(), L),
-             pn_ref.stress_full(x, d, tau, st_['cdiffstress']) if st_['fullstress'] else pn_ref.stress_alt(x, d, tau),
-             pn_ref.nonlocal_(x, d, al) if len(x) > 2 * len(al) else (0.0, 0.0), pn_ref.surface(x, d, st_['beta'], st_['cdiffsurface'])]
-    tot = math.fsum(p[0] for p in parts)
-    return tot, tot - (mr[0] - mr[1]), tot + (mr[2] - mr[0]), math.fsum(p[1] for p in parts)
-
 
 SOLVE_CPU_LIMIT = 90.0
 
@@ -1021,6 +1248,17 @@ def _on_alarm(signum, frame):
     raise _SolveTimeout()
 
 
+_DECOY = {'tau': [[0.0, 0.001, 0.0], [0.001, 0.002, 0.0], [0.0, 0.0, 0.0]], 'alpha': [0.01, 0.02],
+          'beta': [[0.1, 0.0, 0.0], [0.0, 0.0, 0.0], [0.0, 0.0, 0.2]], 'cutoff': 50.0}
+
+
+def _total_in_band(pn, S, st_, x, d, K, a, kw, what):
+    e, lo, hi, sc = my_total(S, st_, x, d, K)
+    got = float(pn.total_energy(*a, **kw))
+    require(math.isfinite(got) and lo - 1e-8 * sc <= got <= hi + 1e-8 * sc,
+            lambda: '%s = %.15g, independent evaluation %.15g (accepted [%.15g, %.15g])' % (what, got, e, lo, hi))
+
+
 def oracle_solve(case):
     S = build_pn_system(case['sys'])
     blocked_multi(S)
@@ -1029,7 +1267,17 @@ def oracle_solve(case):
     N = len(x)
     if N <= 2 * len(alphas_of(st_)):
         st_['alpha'] = None
-    pn = make_sdvpn(S, st_)
+    h = case.get('hist')
+    sv = h['settings_via'] if h else 'ctor'
+    if sv == 'ctor':
+        pn = make_sdvpn(S, st_)
+    else:
+        # the object is built with other settings; the real ones reach it through the setters / solve's keywords
+        decoy = dict(st_)
+        decoy.update(_DECOY)
+        for f in ('fullstress', 'cdiffelastic', 'cdiffsurface'):
+            decoy[f] = not st_[f]
+        pn = make_sdvpn(S, decoy)
     labels = pn_labels(case, S, d)
     K = np.asarray(pn.K_tensor, dtype=float)
     e0, e0lo, e0hi, sc0 = my_total(S, st_, x, d, K)
@@ -1037,11 +1285,51 @@ def oracle_solve(case):
     if not case['default_method']:
         kw['min_method'] = case['method']
     labels.add('m_' + case['method'])
+    real = dict(tau=np.array(st_['tau']), alpha=0.0 if st_['alpha'] is None else st_['alpha'], beta=np.array(st_['beta']),
+                cutofflongrange=1000.0 if st_['cutoff'] is None else st_['cutoff'], fullstress=st_['fullstress'],
+                cdiffelastic=st_['cdiffelastic'], cdiffsurface=st_['cdiffsurface'], cdiffstress=st_['cdiffstress'])
+    if sv == 'setters':
+        for k_, v_ in real.items():
+            setattr(pn, k_, v_)
+        labels.add('history_settings_by_setters')
+    elif sv == 'solve_kw':
+        kw.update(real)
+        labels.add('history_settings_by_solve_kw')
+    # object history: an energy evaluation with another (x, disregistry) given as arguments before the solve
+    x2 = d2 = None
+    if h:
+        labels.add('history')
+        x2, d2 = build_profile(step_profile(h, case['prof'], case['prof'], nmax=21), S['b'])
+        if len(x2) <= 2 * len(alphas_of(st_)):
+            h = None
+    pre = bool(h) and sv != 'solve_kw'          # (with solve_kw the real settings are not in place before the solve)
+    stored_first = pre and bool(h['stored_first'])
+    if pre:
+        if stored_first:
+            pn.x = x.copy()
+            pn.disregistry = d.copy()
+            labels.add('history_eval_between_store_and_solve')
+        if len(x2) != N:
+            labels.add('history_new_len')
+        elif abs((x2[1] - x2[0]) - (x[1] - x[0])) > 1e-9 * (x[1] - x[0]):
+            labels.add('history_same_len_new_spacing')
+        else:
+            labels.add('history_same_grid' if np.array_equal(x2, x) else 'history_shifted_grid')
+        try:
+            _total_in_band(pn, S, st_, x2, d2, K, (x2.copy(), d2.copy()), {},
+                           'total_energy(x, disregistry) [history: other grid (N %d, spacing %.6g) given as arguments before the solve]'
+                           % (len(x2), x2[1] - x2[0]))
+        except ValueError as e:
+            if st_['fullstress'] and st_['cdiffstress'] and 'broadcast' in str(e):
+                raise Violation('total_energy with fullstress=True, cdiffstress=True: stress_energy raised ValueError(%s)' % e, key=K_CDIFF)
+            raise
     # safety net (CPU-time alarm): a line search that runs away never returns; such a case is skipped, not judged
     old_handler = signal.signal(signal.SIGVTALRM, _on_alarm)
     signal.setitimer(signal.ITIMER_VIRTUAL, SOLVE_CPU_LIMIT)
     try:
-        if st_['via_solve_kw']:
+        if stored_first:
+            pn.solve(**kw)
+        elif st_['via_solve_kw']:
             pn.solve(x=x, disregistry=d.copy(), **kw)
         else:
             pn.x = x
@@ -1063,6 +1351,13 @@ def oracle_solve(case):
             lambda: 'solve moved the end disregistries: first %r -> %r, last %r -> %r' % (d[0].tolist(), d1[0].tolist(), d[-1].tolist(), d1[-1].tolist()))
     require(not np.any(d1[:, 1] != 0.0), lambda: 'solve produced an out-of-plane disregistry component %r' % d1[:, 1].tolist())
     _cmp(pn.x, x, 0.0, 'x after solve')
+    if sv == 'solve_kw':
+        # the keywords are documented to change the stored settings
+        _cmp(pn.tau, real['tau'], 0.0, 'tau after solve(tau=)'); _cmp(pn.beta, real['beta'], 0.0, 'beta after solve(beta=)')
+        require(tuple(float(t) for t in pn.alpha) == tuple(alphas_of(st_)), lambda: 'alpha after solve(alpha=%r): %r' % (real['alpha'], pn.alpha))
+        require(float(pn.cutofflongrange) == float(real['cutofflongrange']), lambda: 'cutofflongrange after solve(cutofflongrange=): %r' % pn.cutofflongrange)
+        for f in ('fullstress', 'cdiffelastic', 'cdiffsurface', 'cdiffstress'):
+            require(bool(getattr(pn, f)) == bool(st_[f]), lambda: '%s after solve(%s=%r): %r' % (f, f, st_[f], getattr(pn, f)))
     e1, e1lo, e1hi, sc1 = my_total(S, st_, x, d1, K)
     tol = 1e-9 * max(sc0, sc1)
     require(e1lo <= e0hi + tol, lambda: 'solve(%s, %r) raised the total energy: %.15g -> %.15g (independent evaluation, tol %.3g)'
@@ -1070,9 +1365,18 @@ def oracle_solve(case):
     # the object's own number agrees with the independent one after the solve
     got = float(pn.total_energy())
     require(math.isfinite(got) and e1lo - 1e-8 * sc1 <= got <= e1hi + 1e-8 * sc1,
-            lambda: 'total_energy() after solve = %.15g, independent evaluation %.15g (accepted [%.15g, %.15g])' % (got, e1, e1lo, e1hi))
+            lambda: 'total_energy() after solve = %.15g, independent evaluation %.15g (accepted [%.15g, %.15g])%s'
+            % (got, e1, e1lo, e1hi, ' [history: another grid was evaluated as arguments between storing x and solve()]'
+               if stored_first else ''))
     res = pn.res
     require(res is not None and hasattr(res, 'x') and len(res.x) == 2 * (N - 2), 'solve did not keep the optimizer result over 2(N-2) variables')
+    if h and h['post']:
+        # ... and the same evaluations again on the solved object: the other grid as arguments, then the stored one
+        _total_in_band(pn, S, st_, x2, d2, K, (x2.copy(), d2.copy()), {},
+                       'total_energy(x, disregistry) [history: other grid (N %d, spacing %.6g) given as arguments after the solve]'
+                       % (len(x2), x2[1] - x2[0]))
+        _total_in_band(pn, S, st_, x, d1, K, (), {}, 'total_energy() [history: stored solution again after evaluating another grid]')
+        labels.add('history_post_solve')
     if np.abs(d1 - d).max() > 1e-9:
         labels.add('moved')
     if e1 < e0 - 1e-6 * abs(e0):
@@ -1240,27 +1544,39 @@ CLAUSES = [
     # min_share values are about half of the share observed on the unchanged /repo, where the cases that hit an open
     # finding are excluded without labels (they still count in the denominator)
     Clause('interp', oracle_interp, G.interp_cases, quick=900, thorough=16000,
-           min_share={'nt': 0.45, 'oblique': 0.35, 'dup_edge': 0.25, 'delta': 0.2, 'kind_random': 0.18, 'list': 0.2},
+           min_share={'nt': 0.45, 'oblique': 0.35, 'dup_edge': 0.25, 'delta': 0.2, 'kind_random': 0.18, 'list': 0.2,
+                      'history': 0.2, 'history_reload_set': 0.1, 'history_reload_model': 0.1, 'history_back': 0.08},
            desc='E_gsf/delta reproduce every input value at its sampled (a1,a2), smooth and nearest modes, arrays/lists/floats'),
     Clause('periodic', oracle_periodic, _periodic_cases, quick=900, thorough=16000,
-           min_share={'nt': 0.35, 'oblique': 0.28, 'shifted': 0.35, 'scalar': 0.18},
+           min_share={'nt': 0.35, 'oblique': 0.28, 'shifted': 0.35, 'scalar': 0.18, 'history_mode_order': 0.2, 'history_mode_back': 0.1},
            desc='E(a1+k1, a2+k2) = E(a1, a2) for integer periods; nearest mode equals the exact nearest-sample table'),
     Clause('coords', oracle_coords, G.coords_cases, quick=1200, thorough=20000,
-           min_share={'nt': 0.45, 'oblique': 0.4, 'npts3': 0.15, 'xvect': 0.18, 'scalar': 0.18},
+           min_share={'nt': 0.45, 'oblique': 0.4, 'npts3': 0.15, 'xvect': 0.18, 'scalar': 0.18,
+                      'history': 0.25, 'history_reload_set': 0.08, 'history_reload_model': 0.08, 'history_swap': 0.08, 'history_other_mode': 0.04},
            desc='a12_to_pos, pos_to_xy, xy_to_pos, a12_to_xy, pos_to_a12(single) against independent basis algebra; mutual inverses'),
     Clause('coords_multi', oracle_coords_multi, G.coords_cases, quick=1200, thorough=20000,
-           min_share=_BlockedGuard({'nt': 0.3, 'oblique': 0.25, 'npts3': 0.1, 'npts7': 0.06, 'altvect': 0.12, 'smooth': 0.15, 'nearest': 0.2}),
+           min_share=_BlockedGuard({'nt': 0.3, 'oblique': 0.25, 'npts3': 0.1, 'npts7': 0.06, 'altvect': 0.12, 'smooth': 0.15, 'nearest': 0.2,
+                                    'history': 0.25, 'history_reload_set': 0.1, 'history_reload_model': 0.08, 'history_swap': 0.1,
+                                    'history_other_mode': 0.05}),
            desc='pos_to_a12 / xy_to_a12 on 1,2,3,7 positions; E_gsf and delta given a1/a2, pos, x/y, alternative vectors agree'),
-    Clause('model', oracle_model, G.model_cases, quick=400, thorough=6000, min_share={'nt': 0.3, 'json': 0.3},
+    Clause('model', oracle_model, G.model_cases, quick=400, thorough=6000,
+           min_share={'nt': 0.3, 'json': 0.3, 'history_load_into_existing': 0.2},
            desc='model() -> JSON/XML text, DataModelDict or file -> GammaSurface: same data, vectors, box, answers'),
-    Clause('pn_terms', oracle_pn_terms, G.pn_cases, quick=1500, thorough=25000,
-           min_share={'nt': 0.16, 'mixed': 0.23, 'K_offdiag': 0.13, 'N>120': 0.1, 'cdiffelastic': 0.15, 'tau': 0.15},
-           desc='disldensity, elastic, long-range, stress (both forms), surface, nonlocal vs independent formula evaluation; quadratic form, rigid shift'),
-    Clause('pn_total', oracle_pn_total, G.pn_cases, quick=1000, thorough=16000,
-           min_share=_BlockedGuard({'nt': 0.15, 'mixed': 0.23, 'wraps': 0.1, 'crystal_rot': 0.15}),
-           desc='misfit energy vs dx*sum gamma(delta) by independent conversion; total = sum of the six terms'),
+    Clause('pn_terms', oracle_pn_terms, G.pn_hist_cases, quick=1500, thorough=25000,
+           min_share={'nt': 0.16, 'mixed': 0.23, 'K_offdiag': 0.13, 'N>120': 0.1, 'cdiffelastic': 0.15, 'tau': 0.15,
+                      'history': 0.2, 'history_same_len_new_spacing': 0.12, 'history_setter_between': 0.15,
+                      'history_settings_changed': 0.12, 'history_new_len': 0.06, 'history_steps>=2': 0.15},
+           desc='disldensity, elastic, long-range, stress (both forms), surface, nonlocal vs independent formula evaluation; quadratic form, rigid shift; '
+                'repeated evaluations on one object (arguments / setters / changed settings)'),
+    Clause('pn_total', oracle_pn_total, G.pn_hist_cases, quick=1000, thorough=16000,
+           min_share=_BlockedGuard({'nt': 0.15, 'mixed': 0.23, 'wraps': 0.1, 'crystal_rot': 0.15,
+                                    'history': 0.17, 'history_same_len_new_spacing': 0.09, 'history_setter_between': 0.12,
+                                    'history_settings_changed': 0.06, 'history_new_len': 0.035}),
+           desc='misfit energy vs dx*sum gamma(delta) by independent conversion; total = sum of the six terms = independent evaluation; '
+                'repeated evaluations on one object'),
     Clause('solve', oracle_solve, G.solve_cases, quick=64, thorough=640, max_share={'timeout_skipped': 0.2},
-           min_share=_BlockedGuard({'moved': 0.5, 'lowered': 0.4}),
+           min_share=_BlockedGuard({'moved': 0.5, 'lowered': 0.4, 'history': 0.28, 'history_same_len_new_spacing': 0.05,
+                                    'history_eval_between_store_and_solve': 0.07}),
            desc='solve never raises the (independently evaluated) total energy, end rows/x/out-of-plane component unchanged'),
     Clause('halfwidth', oracle_halfwidth, G.halfwidth_cases, quick=32, thorough=320,
            desc='sinusoidal misfit law: arctangent profile of lowest total energy has the classical half-width K b^2/(4 pi^2 gamma0)'),
